@@ -86,7 +86,9 @@ CheckRefund(e, post) ==
               /\ (\E x \in Range(disp) : x.hash = d.hash /\ Executed(x) /\ ResultOf(x) \in {1, 3, 4, 6})
            THEN {IF "F-13" \in KNOWN /\ ~IsZero(short) /\ "err" \in DOMAIN e /\ (\E i \in 1 .. (Len(e.err) - 11) : SubSeq(e.err, i, i + 11) = "insufficient") THEN "KNOWN:F-13"
                  ELSE IF "F-18" \in KNOWN /\ (\E x \in Range(disp) : x.hash = d.hash /\ x.round > 1) THEN "KNOWN:F-18"
-                 ELSE IF "F-21" \in KNOWN /\ (CHOOSE p \in rec : TRUE).bond THEN "KNOWN:F-21" ELSE "EveryRecordedPayerCanClaimItsRefund"}
+                 \* (Dev_F21: the record of fees paid from stake is kept per dispute, not per payer; the refund of the first
+                 \*  stake payer uses it up.  Identity: this payer paid from stake and the dispute's record is gone.)
+                 ELSE IF "F-21" \in KNOWN /\ (CHOOSE p \in rec : TRUE).bond /\ "feestake" \notin DOMAIN d THEN "KNOWN:F-21" ELSE "EveryRecordedPayerCanClaimItsRefund"}
            ELSE {})
      \cup (IF e.post.dispute.bal = bal /\ e.post.dispute.payers = payers THEN {} ELSE {"RejectedRefundChangesNothing"})
   ELSE
